@@ -14,7 +14,7 @@
     pairs a map holds for the requested keys, in request order; [hd false o] the oracle bit the
     first persister call of the operation will consume. *)
 From Coq Require Import List NArith ZArith Lia Bool.
-From Verif Require Import Base.BStr Unit.StorageUnit Unit.SmallCache Unit.StorageUnit_proofs.
+From Verif Require Import Base.Generic Base.BStr Unit.StorageUnit Unit.CacherPred Unit.SmallCache Unit.StorageUnit_proofs Unit.UnitComp Unit.UnitComp_proofs.
 Import ListNotations.
 
 (** Get / Has / Put / Remove / GetBulkFromEpoch answer, at every step of every history, as the map
@@ -287,6 +287,34 @@ Example C16_factory_guard_examples :
   factory_guard 3 2 = FRefusedBatchSize /\ factory_guard 2 2 = FContinue /\ factory_guard (-1) 0 = FContinue.
 Proof. vm_compute. repeat split; reflexivity. Qed.
 
+(** The tie.  The model runs the unit over [small_cache], the implementation over the repository's own caches; the wire wrapper
+    (Unit/UnitComp.v, [observe]) prints only what is claimed not to depend on the cacher.  Proved here for every data operation except
+    GetBulkFromEpoch: after ANY history, for ANY lawful cacher, the printed observables of an operation are a function of the operations
+    issued so far and their failure oracles alone -- the cacher does not occur on the right-hand side ... *)
+Theorem C16_observables_warm : forall (C : cacher_ops) (L : cacher_laws C) (pre : list uop) (d : uop), is_bulk d = false ->
+  let s := unit_final C (unit_new C) pre in
+  observe false d (snd (unit_step C s d)) (u_pers s) = spec_observe false d (oracle_ack_map pre).
+Proof. intros C L pre d Hb. cbv zeta. rewrite (observe_warm C L pre d Hb), (ack_map_oracle C L). reflexivity. Qed.
+
+(** ... also when ClearCache is called first (the wrapper's [cold] flag; then the error CLASS of a read is printed too), for a cacher
+    whose Clear forgets everything ... *)
+Theorem C16_observables_cold : forall (C : cacher_ops) (L : cacher_laws C) (pre : list uop) (d : uop),
+  clear_forgets C L -> is_bulk d = false ->
+  let s := unit_clear_cache C (unit_final C (unit_new C) pre) in
+  observe true d (snd (unit_step C s d)) (u_pers s) = spec_observe true d (oracle_ack_map pre).
+Proof. intros C L pre d Hcf Hb. cbv zeta. rewrite (observe_cold C L pre d Hcf Hb), (ack_map_oracle C L). reflexivity. Qed.
+
+(** ... hence two lawful cachers (the model's and the implementation's) print the same: a disagreement on these labels cannot come
+    from the eviction policy of the cache *)
+Theorem C16_observables_do_not_depend_on_the_cacher :
+  forall (C1 C2 : cacher_ops) (L1 : cacher_laws C1) (L2 : cacher_laws C2) (pre : list uop) (d : uop), is_bulk d = false ->
+  (let s := unit_final C1 (unit_new C1) pre in observe false d (snd (unit_step C1 s d)) (u_pers s)) =
+  (let s := unit_final C2 (unit_new C2) pre in observe false d (snd (unit_step C2 s d)) (u_pers s)) /\
+  (clear_forgets C1 L1 -> clear_forgets C2 L2 ->
+   (let s := unit_clear_cache C1 (unit_final C1 (unit_new C1) pre) in observe true d (snd (unit_step C1 s d)) (u_pers s)) =
+   (let s := unit_clear_cache C2 (unit_final C2 (unit_new C2) pre) in observe true d (snd (unit_step C2 s d)) (u_pers s))).
+Proof. exact observables_do_not_depend_on_the_cacher. Qed.
+
 Print Assumptions C16_map.
 Print Assumptions C16_get_has_after.
 Print Assumptions C16_persister_is_ack_map.
@@ -309,3 +337,6 @@ Print Assumptions C16_lifecycle_extends.
 Print Assumptions C16_range_keys.
 Print Assumptions C16_destroy_unit.
 Print Assumptions C16_close.
+Print Assumptions C16_observables_warm.
+Print Assumptions C16_observables_cold.
+Print Assumptions C16_observables_do_not_depend_on_the_cacher.
